@@ -201,7 +201,7 @@ def date_value(g: L.G) -> datetime.date:
 
 
 def decimal_value(g: L.G) -> decimal.Decimal:
-    x = g.r.random()
+    x = g.u()
     if x < 0.5:
         d = decimal.Decimal(g.n(0, 99999)) / (10 ** g.n(0, 4))
     elif x < 0.6:
